@@ -878,6 +878,14 @@ func (e *c10Eng) chanIDIn(info *types.Info, f *c10Fn, x ast.Expr, depth int) (st
 			return "call " + repoName(fn) + "()", "unknown"
 		}
 	case *ast.Ident:
+		// a local defined exactly once as a copy of an access path (out := p.sequences) stands for that path
+		if src := localAliasOf(info, t); src != nil && depth < 3 {
+			return e.chanIDIn(info, f, src, depth+1)
+		}
+		// ... and one defined exactly once by a call (sequences := vx.parser.Next()) for that call's channel
+		if src := c10SingleDefCall(info, t); src != nil && depth < 3 {
+			return e.chanIDIn(info, f, src, depth+1)
+		}
 		if f != nil {
 			return "local " + f.fi.Name + "." + t.Name, "local"
 		}
@@ -889,6 +897,11 @@ func (e *c10Eng) chanIDIn(info *types.Info, f *c10Fn, x ast.Expr, depth int) (st
 // ownerOf names the object a method-call expression is applied to: `vx.parser.Next()` ->
 // "vaxis.Vaxis.parser", `parser.Next()` -> "local <func>.parser"; "" when x is not such a call.
 func (e *c10Eng) ownerOf(f *c10Fn, x ast.Expr) string {
+	if id, ok := unparen(x).(*ast.Ident); ok {
+		if src := c10SingleDefCall(f.info, id); src != nil {
+			x = src
+		}
+	}
 	call, ok := unparen(x).(*ast.CallExpr)
 	if !ok {
 		return ""
@@ -1814,6 +1827,43 @@ func (e *c10Eng) objectOf(f *c10Fn) string {
 			best, bn = t, n
 		}
 	}
+	if best == "" {
+		// the root touches nothing itself: the body of its loop was moved into a method the loop calls; the object
+		// is the receiver of the methods called from the root's loops
+		var loops []ast.Node
+		inspectNoLit(f.body, func(n ast.Node) bool {
+			switch n.(type) {
+			case *ast.ForStmt, *ast.RangeStmt:
+				loops = append(loops, n)
+			}
+			return true
+		})
+		inLoop := func(n ast.Node) bool {
+			for _, l := range loops {
+				if n != nil && l.Pos() <= n.Pos() && n.End() <= l.End() {
+					return true
+				}
+			}
+			return false
+		}
+		for _, s := range f.sites {
+			if s.kind != "call" || !inLoop(s.node) {
+				continue
+			}
+			for _, t := range s.targets {
+				if t.lit == nil && t.fi != nil && t.fi.Decl.Recv != nil {
+					if n := c10NamedOf(t.fi.Obj.Type().(*types.Signature).Recv().Type()); n != nil && c10IsRepoNamed(n) {
+						count[c10TypeName(n)]++
+					}
+				}
+			}
+		}
+		for t, n := range count {
+			if n > bn || n == bn && t < best {
+				best, bn = t, n
+			}
+		}
+	}
 	if best == "" && f.lit == nil && f.fi.Decl.Recv != nil {
 		if n := c10NamedOf(f.fi.Obj.Type().(*types.Signature).Recv().Type()); n != nil {
 			best = c10TypeName(n)
@@ -2219,6 +2269,7 @@ func (e *c10Eng) ctxNames(b c10Bits) string { return e.ctxReg.str(b) }
 // The check
 
 func runC10(c *Ctx) {
+	dropOrphanHelpers(c)
 	c.Clauses = []string{
 		"C10.a lock order: the acquired-while-holding graph over all mutex fields is acyclic and no mutex is acquired while already held (call graph resolved through types, may-held locksets)",
 		"C10.g lock pairing: every Lock is released on every path to a return (directly or by a deferred Unlock); no Unlock on a path where the mutex is not held",
@@ -3049,7 +3100,8 @@ func (e *c10Eng) infiniteLoops(f *c10Fn) []ast.Stmt {
 	inspectNoLit(f.body, func(n ast.Node) bool {
 		switch t := n.(type) {
 		case *ast.ForStmt:
-			if t.Cond == nil {
+			// a loop without a condition, or a conditional loop whose iterations wait on the environment (c10y.go)
+			if e.condLoopIsService(f, t) {
 				out = append(out, t)
 			}
 		case *ast.RangeStmt:
@@ -3084,7 +3136,6 @@ func (e *c10Eng) mayBlockDeep(f *c10Fn, seen map[*c10Fn]bool) string {
 
 func (e *c10Eng) ruleExit() {
 	c := e.c
-	par := func(f *c10Fn) map[ast.Node]ast.Node { return e.p.Parents(f.pkg) }
 	for _, cx := range e.ctxs {
 		if cx.kind != "go" && cx.kind != "timer" {
 			continue
@@ -3120,7 +3171,6 @@ func (e *c10Eng) ruleExit() {
 			oneShot.flush(c)
 			continue
 		}
-		pm := par(f)
 		for li, loop := range loops {
 			key := fmt.Sprintf("%s/loop#%d has a quit arm", cx.name, li+1)
 			if rs, ok := loop.(*ast.RangeStmt); ok {
@@ -3136,57 +3186,14 @@ func (e *c10Eng) ruleExit() {
 				c.check(closed, "C10.d", key, loop.Pos(), "range over "+ch+" ends when the channel is closed", "range over "+ch+", which is never closed: the goroutine never exits")
 				continue
 			}
-			var label *ast.LabeledStmt
-			if ls, ok := pm[loop].(*ast.LabeledStmt); ok {
-				label = ls
+			// an exit of the loop taken because a receive on a quit/EOF/context channel succeeded: path-sensitive over
+			// local flags and helper results (c10y.go), so labelled breaks, flag-governed loops and a loop body moved
+			// into a helper are judged alike
+			quit, exits, okx := e.quitArms(f, loop.(*ast.ForStmt))
+			if !okx {
+				c.undecided("C10.d", key, loop.Pos(), "the loop of the goroutine could not be explored")
+				continue
 			}
-			var quit []string
-			exits := 0
-			var body ast.Node = loop.(*ast.ForStmt).Body
-			inspectNoLit(body, func(n ast.Node) bool {
-				isExit := false
-				switch t := n.(type) {
-				case *ast.ReturnStmt:
-					isExit = true
-				case *ast.BranchStmt:
-					switch t.Tok {
-					case token.BREAK:
-						if t.Label != nil {
-							isExit = label != nil && t.Label.Name == label.Label.Name
-						} else {
-							// innermost breakable construct must be the loop itself
-							isExit = true
-							for cur := pm[n]; cur != nil && cur != loop; cur = pm[cur] {
-								switch cur.(type) {
-								case *ast.ForStmt, *ast.RangeStmt, *ast.SwitchStmt, *ast.TypeSwitchStmt, *ast.SelectStmt:
-									isExit = false
-								}
-							}
-						}
-					case token.GOTO:
-						isExit = true
-					}
-				}
-				if !isExit {
-					return true
-				}
-				exits++
-				for cur := pm[n]; cur != nil && cur != loop; cur = pm[cur] {
-					cc, ok := cur.(*ast.CommClause)
-					if !ok || cc.Comm == nil {
-						continue
-					}
-					ast.Inspect(cc.Comm, func(m ast.Node) bool {
-						if u, ok := m.(*ast.UnaryExpr); ok && u.Op == token.ARROW {
-							if ch, kind := e.chanID(f, u.X); kind != "timer" {
-								quit = append(quit, ch)
-							}
-						}
-						return true
-					})
-				}
-				return true
-			})
 			if len(quit) > 0 {
 				sort.Strings(quit)
 				c.ok("C10.d", key, loop.Pos(), "%d exits; exit inside a receive arm on %s", exits, strings.Join(quit, ", "))
